@@ -91,7 +91,7 @@ def mech_of(dg, what):
 def run(tier):
     thorough = tier == 'thorough'
     chk = Check('C06', 'fault_enumeration', tier,
-                'three persistent classes x 0-5 unique-id inputs x {terminate at every eval-breaker point of the child, SIGKILL at every line of the child (process/remote), target exception on input j, '
+                'three persistent classes x 0-5 unique-id inputs x {terminate at every eval-breaker point of the child, SIGKILL at every line of the child (process/remote, also a remote worker created inside a context), target exception on input j, '
                 'child killed while the remote forwarding thread is paused at each of its lines} x {results_iter/next_result consumer, Pool-style multiplexing consumer}; '
                 'distinct non-trivial = distinct (class, scenario, fault, landing point)')
     scens = ['p0', 'p1', 'p3', 'p5'] if thorough else ['p0', 'p3']
@@ -131,6 +131,19 @@ def run(tier):
             chk.case(('kill', mux, c['cls'], c['scen'], dg['point']['func'], dg['point']['line']))
             chk.count('sigkill_cases')
             judge(chk, c, mech_of(dg, 'mux-sigkill' if mux else 'sigkill'), mux=mux)
+    # c2) the same kills for a remote worker created inside a context (its data socket has been handed from the server
+    #     to the context's helper process)
+    for mux in (False, True):
+        cases, _ = lp.run_matrix(tier, ['PersistentRemoteWorker'], [], ['p3'], 'c06kc%d' % mux, events='line', inject_action='sigkill',
+                                 extra_repeats=rep, per_class_cap=(None if thorough else 12), spec_extra=dict({'mux': True} if mux else {}, in_context=True))
+        for c in cases:
+            dg = lp.digest(c)
+            if dg['point'] is None:
+                chk.count('point_not_reached')
+                continue
+            chk.case(('kill-in-context', mux, c['cls'], c['scen'], dg['point']['func'], dg['point']['line']))
+            chk.count('sigkill_in_context_cases')
+            judge(chk, c, mech_of(dg, 'in-context-mux-sigkill' if mux else 'in-context-sigkill'), mux=mux)
     # d) target exception on the j-th input
     wd = workdir('c06')
     jobs = [(cls, scen, mux) for cls in lp.PERSISTENT for scen in ('pfail1', 'pfail', 'pfail3') for mux in (False, True)]
